@@ -209,6 +209,71 @@ def o_independent(src, tree, how):
     return None
 
 
+def _mutables(v, path=()):
+    """(path, object) of every mutable object reachable through containers, lists and dicts"""
+    out = []
+    if isinstance(v, dict):
+        out.append((path, v))
+        for k in list(dict.keys(v)):
+            if not str(k).startswith('_'):
+                out.extend(_mutables(dict.__getitem__(v, k), path + (k,)))
+    elif isinstance(v, list):
+        out.append((path, v))
+        for i, x in enumerate(v):
+            out.extend(_mutables(x, path + (i,)))
+    elif isinstance(v, bytearray):
+        out.append((path, v))
+    return out
+
+
+def _frozen(v):
+    if isinstance(v, dict):
+        return ('d', tuple((k, _frozen(dict.__getitem__(v, k))) for k in dict.keys(v) if not str(k).startswith('_')))
+    if isinstance(v, list):
+        return ('l', tuple(_frozen(x) for x in v))
+    if isinstance(v, bytearray):
+        return ('ba', bytes(v))
+    return v
+
+
+@C.oracle('independent_plain')
+def o_independent_plain(src, how):
+    """deepcopy / pickle of a container whose entries are plain lists, dicts, bytearrays or display dictionaries (what adapters and
+    user code store): the copy shares no mutable object with the original, at any depth"""
+    import harness as _H
+    mk = lambda: eval(src, dict(_H.namespace(), bytearray=bytearray))
+    f = {'deepcopy': copy.deepcopy, 'pickle': lambda x: pickle.loads(pickle.dumps(x))}[how]
+    orig = mk()
+    snap = _frozen(orig)
+    cp = f(orig)
+    if _frozen(cp) != snap:
+        return '%s differs from the original' % how
+    ids = {id(o) for _, o in _mutables(orig)}
+    for path, o in _mutables(cp):
+        if id(o) in ids:
+            return 'the %s shares the %s at %r with the original' % (how, type(o).__name__, path)
+    for path, o in _mutables(cp):
+        if isinstance(o, dict):
+            dict.__setitem__(o, 'mutated', 1)
+        elif isinstance(o, list):
+            o.append('mutated')
+        else:
+            o.extend(b'!')
+        if _frozen(orig) != snap:
+            return 'mutating the %s at %r changed the original' % (how, path)
+    return None
+
+
+PLAIN_SRCS = [
+    'Container(a=[1, [2, 3]], b=dict(k=[4]), c=bytearray(b"xy"))',
+    'Container(n=Container(l=[5], d=dict(z=[6])), lc=ListContainer([[7], dict(y=8), bytearray(b"z")]))',
+    'Hex(RawCopy(Byte)).parse(b"\\x07")',
+    'Struct("r"/Hex(RawCopy(Int16ub)), "h"/HexDump(RawCopy(Bytes(2)))).parse(b"\\x01\\x02\\x03\\x04")',
+    'Struct("f"/FlagsEnum(Byte, a=1, b=2), "x"/Computed(lambda ctx: [1, [2]]), "y"/Computed(lambda ctx: dict(k=[3]))).parse(b"\\x03")',
+    'ListContainer([Container(p=[1]), [Container(q=[2])]])',
+]
+
+
 def ref_search(v, pat, all_):
     items = []
     if isinstance(v, dict):
@@ -312,6 +377,11 @@ def run(tier, seed):
         flat = {k: v for k, v in gen_tree(rng, 0).items()}
         acc.check('views', 'Container', start=flat, ops=ops)
         t = gen_tree(rng, 3, public_only=False)
+        if len(acc.oracle_runs) >= 0 and not getattr(acc, '_plain_done', False):
+            acc._plain_done = True
+            for psrc in PLAIN_SRCS:
+                for phow in ('deepcopy', 'pickle'):
+                    acc.check('independent_plain', psrc, how=phow)
         for how in ('copy', 'copy_method', 'deepcopy', 'pickle'):
             acc.check('independent', 'Container', tree=t, how=how)
         # the same histories on the heap model
